@@ -27,6 +27,8 @@ checks = {
          "boundary vectors rendered by the real renderers and judged by TLC (Output/Human specs, exact arithmetic)", "4-C11"),
  "C12": (MC, "Human.tla states the rounding rules in exact BigNat arithmetic (largest prefix, decimals from the whole part, half-unit bound with both neighbours admissible on ties, >=3 significant digits, <=5 characters, monotone magnitude); HumanMC lets TLC generate the neighbourhoods of every rounding/precision/prefix boundary and checks satisfiability; every value (plus stratified random 64-bit values) is rendered by the real Humaner.FormatNumber and judged by TLC (HumanJudge), neighbours for monotonicity.",
          "TLC-generated boundary values rendered by the real FormatNumber and judged by TLC in exact arithmetic", "4-C12"),
+ "C14": (MC, "Cli.tla defines the effective settings as a fold over the argument list with gitconfig consulted iff no option of the family is given, and the canonical command line; TLC enumerates argument sequences x gitconfig states per family, checks the laws, and exports each scenario with its canonical form or Error; each is run on the real binary as (gitconfig, args) and as canonical command line without gitconfig: byte-identical stdout, same progress, or failure exactly when the spec says so; documented equivalent spellings likewise.",
+         "TLC-enumerated option/gitconfig scenarios run as paired executions of the real binary", "4-C14"),
  "C15": (MC, "Config.tla gives the byte grammar of `git config --list -z`, the reference NUL-first reader and the reader as coded; TLC checks on all small listings (value-less keys, values with LF, look-alike sections) that the reader is faithful and foreign entries never leak; every listing is served by a fake git to the real Repository.GetConfig and compared; CLI scenarios with refgroups over all config scopes are judged by TLC (RefsJudge) from git's own listing.",
          "TLC model checking of the listing readers + listings replayed into Repository.GetConfig through a fake git + TLC-judged CLI scenarios", "4-C15"),
  "C19": (MC, "Output!FootnotesOK (1..k in order of first citation, identical texts share, all cited, all defined) is judged by TLC on synthetic reports with random witness-sharing patterns rendered by the real TableString, and on structurally parsed tables of repositories whose names come from byte classes (quotes, backslash, TAB, LF, CR, ESC, non-UTF-8, '[n]' look-alikes, very long); JSON v1/v2 must parse and keep the key set of the plain-name twin.",
@@ -38,7 +40,6 @@ checks = {
 }
 pending = {
  "C13": "check under construction in this session",
- "C14": "check under construction in this session",
  "C17": "check under construction in this session",
 
 }
